@@ -61,6 +61,7 @@ const REQ_BODY_DAMAGE: &[FK] = &[
     FK::Oversize,
     FK::UnknownField,
     FK::TypeConfusion,
+    FK::WrongDocument,
     FK::ByteFlip,
 ];
 const PARAM_FAULTS: &[FK] = &[
@@ -82,6 +83,7 @@ const RESP_DAMAGE: &[FK] = &[
     FK::StatusFlip,
     FK::UnknownField,
     FK::TypeConfusion,
+    FK::WrongDocument,
     FK::ByteFlip,
     FK::Pretty,
     FK::TrailingWs,
@@ -265,10 +267,90 @@ impl Engine for WireEngine {
         if self.enumerate {
             return crate::wire_enum::run_enum(self, ctx);
         }
+        let channels = self.run_inner(ctx, variant, false);
+        if self.profile == Profile::C09 {
+            // non-interference: replay the very same decisions with every canary (all data of
+            // non-safe arguments, tokens and injected garbage) replaced by another one of the same
+            // shape; whatever is safe to log must come out identical
+            let tape = ctx.lock().tape.rec.clone();
+            let twin = Ctx::new(crate::tape::Tape::replay(tape), false);
+            let other = self.run_inner(&twin, variant, true);
+            ctx.count("probe.c09_twin_runs");
+            if channels.first().map(|c| c.0.as_str()) == Some("not_comparable") || other.first().map(|c| c.0.as_str()) == Some("not_comparable") {
+                ctx.count("probe.c09_twin_not_comparable");
+            } else if channels.len() != other.len() {
+                ctx.violation("C09", "safe_channels_depend_on_non_safe_data:shape", format!("{} safe channels vs {} when only non-safe data changed: {:?} vs {:?}", channels.len(), other.len(), channels, other));
+            } else {
+                for ((name, a), (_, b)) in channels.iter().zip(&other) {
+                    if a != b {
+                        let class = name.split(':').next().unwrap_or("").to_string();
+                        ctx.violation(
+                            "C09",
+                            format!("safe_channel_depends_on_non_safe_data:{}", class),
+                            format!("{} changed from {:?} to {:?} when only data of non-safe arguments changed", name, a, b),
+                        );
+                        break;
+                    }
+                }
+            }
+        }
+    }
+
+
+    fn components(&self) -> Value {
+        json!({
+            "real": [
+                "conjure-codegen output for ir/sim-ir.json (blocking and async clients, server traits), regenerated from /repo on every build",
+                "#[conjure_endpoints] expansions (conjure-macros)",
+                "conjure_http::private::{client,server}::*, UriBuilder, read_body/async_read_body",
+                "conjure_http::server::{StdRequestDeserializer, Optional/BinaryRequestDeserializer, *ResponseSerializer, FromPlain*Decoder, ConjureRuntime negotiation, encodings}",
+                "conjure-serde JSON and Smile, conjure-object PLAIN/types, conjure-error"
+            ],
+            "stub": [
+                "SimTransport (Client + AsyncClient): textual wire, fault injection",
+                "router: template matcher filling PathParams (stands in for conjure-runtime / witchcraft-server)",
+                "SimBody (Iterator + Stream), SimWriter, SimAsyncWriter, discrete-event clock, single-threaded executor",
+                "recording handler behind the generated service traits",
+                "request/response streaming body implementations (user-side WriteBody / AsyncWriteBody)"
+            ]
+        })
+    }
+
+    fn rule(&self) -> String {
+        "one run = drawn flavour (blocking/async), runtime encoding order, 1-4 calls on drawn endpoints of ir/sim-ir.json with drawn arguments and scripted return, a swarm-drawn subset of fault kinds, chunk/timing/write schedules; a run's signature = hash(flavour, endpoints, ordered fault kinds that fired, chunk-count class per body, outcome class); distinct_nontrivial counts distinct signatures of runs in which at least one fault fired or a body was delivered in >= 2 chunks".into()
+    }
+
+    fn assumptions(&self) -> Vec<String> {
+        vec![
+            "the router stub matches what conjure-runtime / witchcraft-server do: split the raw path on '/', hand raw (still percent-encoded) segments to the endpoint via PathParams".into(),
+            "the transport copies header bytes verbatim (no whitespace trimming, no line folding) and never delivers a request twice".into(),
+            "HTTP status >= 300 is the embedding client's business (Client contract) and is not simulated; server errors are handed to the client as errors".into(),
+            "generated types are constructed through conjure_serde::json::client_from_str from IR-driven documents".into(),
+            "nesting depth <= 6 and documents of <= ~150 nodes per value".into(),
+            "C09 on failure: endpoint arguments are decoded in declaration order (the macro expansion emits them in that order), so declared-safe arguments declared before the argument an error names must already be recorded".into(),
+            "macro-derived mirrors cover 11 client and 9 server endpoints; MacroOnly.segments exists only as macro traits (multi-segment path parameters cannot be declared in a Conjure IR)".into(),
+        ]
+    }
+
+    fn required_probes(&self) -> Vec<&'static str> {
+        vec!["probe.handler_invoked"]
+    }
+}
+
+pub fn _unused(_: &EpMeta, _: &Seg, _: &Ty, _: RetKind, _: &Fired, _: &Expect, _: &Forced, _: &BinVal, _: Enc, _: &Exchange, _: &ServerOut) {
+    let _ = judge::is_bearer_token;
+}
+
+impl WireEngine {
+    /// One simulated run; returns the safe-to-log channels observed, in order.
+    fn run_inner(&self, ctx: &Ctx, variant: u64, twin: bool) -> Vec<(String, String)> {
         // variant 0: fault-free configuration (no relaxation can hide an ordinary bug)
         let faults_on = variant != 0;
         let knobs = {
             let mut k = ctx.with_tape(GenKnobs::draw);
+            if twin {
+                k = k.twinned();
+            }
             if self.profile == Profile::C07 {
                 // heavy-tailed lengths, up to ~100 kB
                 k.max_str = ctx.with_tape(|t| *t.pick(&[8u64, 64, 300, 300, 3000, 30000, 100_000]));
@@ -499,48 +581,6 @@ impl Engine for WireEngine {
         }
         let exchanges = std::mem::take(&mut *st.sh.exchanges.lock().unwrap());
         crate::oracles::evaluate(ctx, &st.knobs, &calls, &exchanges, &st.sh.handler, st.is_async);
+        crate::oracles::safe_channels(&exchanges)
     }
-
-    fn components(&self) -> Value {
-        json!({
-            "real": [
-                "conjure-codegen output for ir/sim-ir.json (blocking and async clients, server traits), regenerated from /repo on every build",
-                "#[conjure_endpoints] expansions (conjure-macros)",
-                "conjure_http::private::{client,server}::*, UriBuilder, read_body/async_read_body",
-                "conjure_http::server::{StdRequestDeserializer, Optional/BinaryRequestDeserializer, *ResponseSerializer, FromPlain*Decoder, ConjureRuntime negotiation, encodings}",
-                "conjure-serde JSON and Smile, conjure-object PLAIN/types, conjure-error"
-            ],
-            "stub": [
-                "SimTransport (Client + AsyncClient): textual wire, fault injection",
-                "router: template matcher filling PathParams (stands in for conjure-runtime / witchcraft-server)",
-                "SimBody (Iterator + Stream), SimWriter, SimAsyncWriter, discrete-event clock, single-threaded executor",
-                "recording handler behind the generated service traits",
-                "request/response streaming body implementations (user-side WriteBody / AsyncWriteBody)"
-            ]
-        })
-    }
-
-    fn rule(&self) -> String {
-        "one run = drawn flavour (blocking/async), runtime encoding order, 1-4 calls on drawn endpoints of ir/sim-ir.json with drawn arguments and scripted return, a swarm-drawn subset of fault kinds, chunk/timing/write schedules; a run's signature = hash(flavour, endpoints, ordered fault kinds that fired, chunk-count class per body, outcome class); distinct_nontrivial counts distinct signatures of runs in which at least one fault fired or a body was delivered in >= 2 chunks".into()
-    }
-
-    fn assumptions(&self) -> Vec<String> {
-        vec![
-            "the router stub matches what conjure-runtime / witchcraft-server do: split the raw path on '/', hand raw (still percent-encoded) segments to the endpoint via PathParams".into(),
-            "the transport copies header bytes verbatim (no whitespace trimming, no line folding) and never delivers a request twice".into(),
-            "HTTP status >= 300 is the embedding client's business (Client contract) and is not simulated; server errors are handed to the client as errors".into(),
-            "generated types are constructed through conjure_serde::json::client_from_str from IR-driven documents".into(),
-            "nesting depth <= 6 and documents of <= ~150 nodes per value".into(),
-            "C09 on failure: endpoint arguments are decoded in declaration order (the macro expansion emits them in that order), so declared-safe arguments declared before the argument an error names must already be recorded".into(),
-            "macro-derived mirrors cover 11 client and 9 server endpoints; MacroOnly.segments exists only as macro traits (multi-segment path parameters cannot be declared in a Conjure IR)".into(),
-        ]
-    }
-
-    fn required_probes(&self) -> Vec<&'static str> {
-        vec!["probe.handler_invoked"]
-    }
-}
-
-pub fn _unused(_: &EpMeta, _: &Seg, _: &Ty, _: RetKind, _: &Fired, _: &Expect, _: &Forced, _: &BinVal, _: Enc, _: &Exchange, _: &ServerOut) {
-    let _ = judge::is_bearer_token;
 }
